@@ -1,6 +1,7 @@
 /-
-C12 round trip, layer 9: on a descriptor with pairwise distinct names `normalize` only strips the descriptions, and
-the entries the loader works on are these plus the implicit DocumentAnnotation.
+C12 round trip, layer 9: on a descriptor with pairwise distinct names whose names (type name, supertype, feature name,
+range, element type) carry no surrounding whitespace, `normalize` only strips the descriptions, and the entries the
+loader works on are these plus the implicit DocumentAnnotation.
 -/
 import CassisModel.Proofs.TsXmlRoundTripDecl
 
@@ -56,10 +57,11 @@ theorem filterMap_eq_map_of {α β : Type} (g : α → Option β) (f : α → β
     rw [List.filterMap_cons_some (h a List.mem_cons_self), List.map_cons,
       ih (fun x hx => h x (List.mem_cons_of_mem _ hx))]
 
-theorem normalize_of_nodup (d : Descriptor) (hn : (d.map (·.name)).Nodup) : normalize d = d.map normT := by
-  unfold normalize
+theorem groupByName_of_nodup (d : Descriptor) (hn : (d.map (·.name)).Nodup) : groupByName d = d := by
+  unfold groupByName
   simp only []
   rw [eraseDups_of_nodup _ hn, List.filterMap_map]
+  conv => rhs; rw [← List.map_id d]
   apply filterMap_eq_map_of
   intro t ht
   simp only [Function.comp]
@@ -67,14 +69,26 @@ theorem normalize_of_nodup (d : Descriptor) (hn : (d.map (·.name)).Nodup) : nor
   simp only [List.getLast?_singleton, List.flatMap_cons, List.flatMap_nil, List.append_nil]
   rfl
 
+theorem stripT_eq_normT {t : TDesc} (h : NamesStrippedT t) : stripT t = normT t :=
+  stripT_of_stripped h
+
+theorem normalize_of_nodup (d : Descriptor) (hn : (d.map (·.name)).Nodup) (hs : ∀ t ∈ d, NamesStrippedT t) :
+    normalize d = d.map normT := by
+  unfold normalize
+  have hm : d.map stripT = d.map normT := List.map_congr_left (fun t ht => stripT_eq_normT (hs t ht))
+  rw [hm]
+  apply groupByName_of_nodup
+  rw [List.map_map]
+  exact hn
+
 theorem normT_docEntry : normT docEntry = docEntry := by decide
 
 /-- membership in the entries the loader works on -/
-theorem mem_effective (d : Descriptor) (hn : (d.map (·.name)).Nodup) (e : TDesc) :
+theorem mem_effective (d : Descriptor) (hn : (d.map (·.name)).Nodup) (hs : ∀ t ∈ d, NamesStrippedT t) (e : TDesc) :
     e ∈ effective d ↔ e ∈ d.map normT ∨ (DOCUMENT_ANNOTATION ∉ d.map (·.name) ∧ e = docEntry) := by
   unfold effective
   simp only []
-  rw [normalize_of_nodup d hn]
+  rw [normalize_of_nodup d hn hs]
   have hnames : (d.map normT).map (·.name) = d.map (·.name) := by
     rw [List.map_map]; rfl
   rw [hnames]
@@ -97,18 +111,18 @@ theorem mem_effective (d : Descriptor) (hn : (d.map (·.name)).Nodup) (e : TDesc
       · exact Or.inl h
       · exact Or.inr h
 
-theorem hasDoc_iff (d : Descriptor) (hn : (d.map (·.name)).Nodup) :
+theorem hasDoc_iff (d : Descriptor) (hn : (d.map (·.name)).Nodup) (hs : ∀ t ∈ d, NamesStrippedT t) :
     ((normalize d).map (·.name)).contains DOCUMENT_ANNOTATION = (d.map (·.name)).contains DOCUMENT_ANNOTATION := by
-  rw [normalize_of_nodup d hn, List.map_map]
+  rw [normalize_of_nodup d hn hs, List.map_map]
   rfl
 
-theorem effective_names (d : Descriptor) (hn : (d.map (·.name)).Nodup) :
+theorem effective_names (d : Descriptor) (hn : (d.map (·.name)).Nodup) (hs : ∀ t ∈ d, NamesStrippedT t) :
     (effective d).map (·.name) =
       if (d.map (·.name)).contains DOCUMENT_ANNOTATION then d.map (·.name)
       else d.map (·.name) ++ [DOCUMENT_ANNOTATION] := by
   unfold effective
   simp only []
-  rw [normalize_of_nodup d hn]
+  rw [normalize_of_nodup d hn hs]
   have hnames : (d.map normT).map (·.name) = d.map (·.name) := by
     rw [List.map_map]; rfl
   rw [hnames]
